@@ -144,15 +144,16 @@ def run_case(case, ctx):
                 if (A if chain == 1 else B).elements_added == 0 and rx + (ra if chain == 1 else rb):
                     ctx.feat("product_operand_with_zero_estimate")
             # the operands as they reach the operation in real use (reloaded, reopened on disk, counter reassigned, second handle)
+            A_feed = B_feed = None  # the handle later additions go through (second round), if not the operand itself
             if ha2 is not None and chain != 1:
-                A = ha2
+                A_feed, A = A, ha2
                 ctx.feat("operand_second_live_handle")
             elif va not in ("same", "handle2"):
                 A, ka, extra = so.operand_variant(ctx, A, ka, va, case["hash"], "a")
                 objs.extend(extra)
                 ctx.feat("operand_" + va)
             if hb2 is not None and chain != 2:
-                B = hb2
+                B_feed, B = B, hb2
                 ctx.feat("operand_second_live_handle")
             elif vb not in ("same", "handle2"):
                 B, kb, extra = so.operand_variant(ctx, B, kb, vb, case["hash"], "b")
@@ -200,8 +201,12 @@ def run_case(case, ctx):
                 rb2, _ = so.resolve(p2["sb2"], len(pool))
                 ra2 = [[k, abs(n)] for k, n in ra2]
                 rb2 = [[k, abs(n)] for k, n in rb2]
-                so.feed(A, ka, pool, ra2)
-                so.feed(B, kb, pool, rb2)
+                # with two live handles on one backing file the second-round additions arrive through the OTHER handle than the
+                # one that takes part in the unions: the operand must show them all the same (one file, one set of bits)
+                so.feed(A_feed if A_feed is not None and not p2["ca"] else A, ka, pool, ra2)
+                so.feed(B_feed if B_feed is not None and not p2["cb"] else B, kb, pool, rb2)
+                if (A_feed is not None and not p2["ca"] and ra2) or (B_feed is not None and not p2["cb"] and rb2):
+                    ctx.feat("second_round_written_through_the_other_handle")
                 S2 = so.make_bloom(ctx, kind_u, est, fpr, case["hash"], "s2")
                 so.feed(S2, kind_u, pool, cur_a + ra2 + cur_b + rb2)
                 U2 = ctx.call(noexc, A.union, B)
